@@ -309,6 +309,85 @@ def one_round(n, rnd, rng, tcp, shared=False):
     return cases, finished
 
 
+def quit_round(n, rnd, rng):
+    """The server life-cycle of MultiAssoc.tla (QuitBegin / QuitEnd) against the real entity on loopback TCP: AE.quit() is
+    called while n associations are established and before any of them has sent a request.  Every request of every
+    association is then served in the model's "closing" state and is judged by the same per-association clauses as in
+    any other round (QuitIsLocal: stopping the listener touches no association in flight).  When quit() returned relative
+    to the associations' ends, and whether a connection was still accepted afterwards, are recorded as observations
+    (they are the standard library's ThreadingMixIn, not a listed property; with the entity's daemon_threads = True quit() does
+    not wait for the associations in flight, which is what the model says too)."""
+    import socket as _s
+    import time as _time
+
+    class QServer(Server):
+        def shutdown(self):
+            super(QServer, self).shutdown()
+            self.listener_stopped.set()
+    srv = QServer(bind=True)
+    srv.listener_stopped = threading.Event()
+    srv.add_scp(sc.storage_scp).add_scp(sc.verification_scp).add_scp(sc.qr_find_scp)
+    results = {}
+    obs = {'quit_returned': None, 'clients_done': None, 'listener_stopped_before_first_request': False, 'accepted_after_quit': None}
+
+    def quitter():
+        srv.quit()
+        obs['quit_returned'] = _time.time()
+    qt = threading.Thread(target=quitter, daemon=True)
+
+    def begin_quit():            # runs in ONE client thread when all n associations are established, before any request
+        qt.start()
+        obs['listener_stopped_before_first_request'] = srv.listener_stopped.wait(30)
+    barrier = threading.Barrier(n, action=begin_quit)
+    srv.__enter__()
+    port = srv.server_address[1]
+    remote = {'aet': 'SRV', 'address': '127.0.0.1', 'port': port}
+    ths = [threading.Thread(target=client_thread, args=(i, remote, barrier, 3, None, results, rnd), daemon=True) for i in range(n)]
+    for t in ths:
+        t.start()
+    for t in ths:
+        t.join(180)
+    obs['clients_done'] = _time.time()
+    finished = all(not t.is_alive() for t in ths)
+    qt.join(60)
+    finished = finished and not qt.is_alive()
+    if not qt.is_alive():
+        c = _s.socket()
+        c.settimeout(2)
+        try:
+            c.connect(('127.0.0.1', port))
+            obs['accepted_after_quit'] = True
+        except OSError:
+            obs['accepted_after_quit'] = False
+        finally:
+            c.close()
+    else:
+        srv.quit()
+    QUIT_OBS.append({'round': rnd, 'clients': n, 'listener_stopped_before_first_request': obs['listener_stopped_before_first_request'],
+                     'quit_returned_after_last_client_s': None if obs['quit_returned'] is None else round(obs['quit_returned'] - obs['clients_done'], 3),
+                     'accepted_after_quit': obs['accepted_after_quit']})
+    seen = {s['inst']: s for s in srv.seen}
+    cases, sent_ok, all_sent, threads = [], [], [], []
+    for i, (rec, mids) in sorted(results.items()):
+        if not obs['listener_stopped_before_first_request']:
+            rec['extras'].append('the accept loop had not stopped 30 s after AE.quit() was called')
+        for rq in rec['requests']:
+            s = seen.get(rq['sentInst'])
+            if s:
+                rq['gotD'], rq['gotInst'], rq['gotClient'], rq['servedTs'] = s['d'], s['inst'], s['client'], s['ts']
+                rec.setdefault('headers', []).append({'got': s['hdr'], 'want': s['hdrWant']})
+            all_sent.append({'client': rec['client'], 'inst': rq['sentInst']})
+            sent_ok.append({'client': rec['client'], 'inst': rq['sentInst']})
+        threads.append([m for m in mids if m is not None])
+        cases.append({'kind': 'assoc', 'a': rec})
+    cases.append({'kind': 'global', 'g': {'sent': sent_ok, 'allSent': all_sent,
+                                          'seen': [{'client': s['client'], 'inst': s['inst']} for s in srv.seen], 'threads': threads}})
+    return cases, finished
+
+
+QUIT_OBS = []
+
+
 def header_stress(rnd, seconds, nthreads=6):
     """The entity's reception path for file-backed storage (AE.get_file: what every association's provider thread
     calls when the first fragment of a C-STORE data set arrives) called from several threads at once, each for its own
@@ -586,6 +665,9 @@ def main(tier='quick'):
     shared_mc = tlc.run('MultiAssocDefs', 'MultiAssoc_shared.cfg', workers=4)
     if not own.ok or 'OwnAssociationOwnData' not in shared_mc.violated:
         raise Machinery('MultiAssoc.tla: expected isolation to hold with own tables and fail with a shared one')
+    vac = tlc.run('MultiAssocDefs', 'MultiAssoc_vacuity.cfg', workers=4)
+    if 'NoRequestWhileClosing' not in vac.violated:
+        raise Machinery('MultiAssoc.tla: no request is served while the server is closing - the quit properties would be vacuous')
     plan = [(8, False, False), (8, True, False), (6, False, True)] if tier == 'quick' else \
         [(16, False, False)] * 6 + [(32, False, False)] * 2 + [(16, True, False)] * 4 + [(48, True, False)] + [(8, False, True)] * 4 + [(8, True, True)] * 2
     cases = []
@@ -627,6 +709,15 @@ def rounds(v, plan, rng, tier):
         for c in cs:
             c['round'] = 50 + k
         cases.extend(cs)
+    del QUIT_OBS[:]
+    for k in range(1 if tier == 'quick' else 6):
+        cs, finished = quit_round(6 if tier == 'quick' else 12, 40 + k, rng)
+        if not finished:
+            v.report({'site': 'whole-stack', 'clause': 'round-did-not-finish'},
+                     'associations in flight when AE.quit() was called did not all finish within 180 s, or quit() had not returned 60 s after the last of them ended')
+        for c in cs:
+            c['round'] = 40 + k
+        cases.extend(cs)
     cs, finished = header_stress(90, 2.0 if tier == 'quick' else 20.0)
     if not finished:
         v.report({'site': 'applicationentity.get_file', 'clause': 'round-did-not-finish'}, 'concurrent receptions into files did not finish')
@@ -666,6 +757,9 @@ def finish_main(v, tier, own, shared_mc, plan, cases, n_life, lstats):
                        'traces_validated_against_impl': len(cases) + n_life, 'associations_validated_against_AssocLife': n_life,
                        'life_cycle_validation_states': lstats['states'], 'rounds': len(plan), 'clients_per_round': [p[0] for p in plan], 'rounds_with_one_shared_requesting_entity': len([p for p in plan if p[2]]),
                        'associations_observed': len([c for c in cases if c['kind'] == 'assoc']),
+                       'server_quit_with_associations_in_flight': list(QUIT_OBS),
+                       'model_properties': ['OwnAssociationOwnData', 'AbortIsLocal', 'QuitIsLocal', 'NoNewAssociationAfterQuit',
+                                            'NoRequestWhileClosing (non-vacuity: violated as expected)'],
                        'samples': [cases[0]], 'exhaustive': False},
           'assumptions': ['real threads: the OS chooses the interleavings; a barrier guarantees that all associations of a round overlap',
                           'wall-clock limits (60-180 s) are > 100x typical durations']}
